@@ -784,12 +784,46 @@ Proof.
     unfold nob; cbn; rewrite ?set_pcell_objs; reflexivity.
 Qed.
 
-Lemma mix_flows_nob s i srcs : nob (mix_flows s i srcs) = nob s.
+Lemma mix_flows_1_nob s i srcs : nob (mix_flows_1 s i srcs) = nob s.
 Proof.
-  unfold mix_flows, nob. cbn.
+  unfold mix_flows_1, nob. cbn.
   destruct (map _ srcs) as [|f t]; [reflexivity|].
-  destruct (forallb _ t); [rewrite set_pcell_objs|]; reflexivity.
+  destruct (_ && _)%bool; [rewrite set_pcell_objs|]; reflexivity.
 Qed.
+
+Lemma build_rows_objs old ps s s' rs : build_rows s old ps = (s', rs) -> objs s' = objs s /\ imols s' = imols s /\ dcs s' = dcs s.
+Proof.
+  revert s s' rs; induction ps as [|p t IH]; intros s s' rs H; cbn in H.
+  - injection H as <- _. auto.
+  - destruct (row_of_phase p old).
+    + destruct (build_rows s old t) as [s1 rs1] eqn:E. injection H as <- _. apply IH in E. exact E.
+    + destruct (build_rows _ old t) as [s2 rs2] eqn:E. injection H as <- _. apply IH in E. cbn in E. exact E.
+Qed.
+
+Lemma fold_wr_row_objs {A} (g : state -> A -> nat) (h : state -> A -> vec) l s :
+  let s' := fold_left (fun st x => wr_row st (g st x) (h st x)) l s in
+  objs s' = objs s /\ imols s' = imols s /\ dcs s' = dcs s.
+Proof.
+  revert s; induction l as [|x t IH]; intros s; cbn; auto.
+  destruct (IH (wr_row s (g s x) (h s x))) as (A1 & A2 & A3). cbn in *. auto.
+Qed.
+
+Lemma expand_phases_objs s ir others : objs (expand_phases s ir others) = objs s.
+Proof.
+  unfold expand_phases. destruct (negb _); [reflexivity|].
+  destruct (build_rows s _ _) as [s1 rs] eqn:E. apply build_rows_objs in E as (E1 & _). cbn. exact E1.
+Qed.
+
+Lemma mixm_nob s i srcs : nob (mixm s i srcs) = nob s.
+Proof.
+  unfold mixm, nob.
+  match goal with |- context [fold_left (fun st pr => wr_row st (@?g st pr) (@?h st pr)) ?l ?s0] =>
+    destruct (fold_wr_row_objs g h l s0) as (A1 & _) end.
+  cbv zeta in A1. rewrite A1. rewrite expand_phases_objs. reflexivity.
+Qed.
+
+Lemma mix_flows_nob s i srcs : nob (mix_flows s i srcs) = nob s.
+Proof. unfold mix_flows. destruct (is_multi s i); [apply mixm_nob | apply mix_flows_1_nob]. Qed.
 
 Lemma reset_chem_nob s i : nob (reset_chem s i) = nob s.
 Proof.
@@ -1147,11 +1181,11 @@ Proof.
   match goal with |- context [set_pcell ?a ?b ?c] => pose proof (set_pcell_same3 a b c) as U; destruct (set_pcell a b c) as [s2 [e|]] end;
     cbn [fst] in *; (eapply same3_trans; [|eapply same3_trans; [exact U|]]); repeat split.
 Qed.
-Lemma mix_flows_same3 s i srcs : same3 s (mix_flows s i srcs).
+Lemma mix_flows_1_same3 s i srcs : same3 s (mix_flows_1 s i srcs).
 Proof.
-  unfold mix_flows. cbn.
+  unfold mix_flows_1. cbn.
   destruct (map _ srcs) as [|f t]; [repeat split|].
-  destruct (forallb _ t); [|repeat split].
+  destruct (_ && _)%bool; [|repeat split].
   match goal with |- context [set_pcell ?a ?b ?c] => pose proof (set_pcell_same3 a b c) as (U1 & U2 & U3) end.
   repeat split; cbn; assumption.
 Qed.
@@ -1330,6 +1364,114 @@ Proof.
     apply si_rebind_fresh; [reflexivity | exact H1].
 Qed.
 
+(* ---------- in-place phase expansion of a multi-phase receiver (MaterialIndexer._expand_phases) ---------- *)
+Lemma map_id_on {A} (f : A -> A) (l : list A) d :
+  (forall k, (k < length l)%nat -> f (nth k l d) = nth k l d) -> map f l = l.
+Proof.
+  induction l as [|x t IH]; intros H; cbn; auto.
+  f_equal; [apply (H O); cbn; lia | apply IH; intros k Hk; apply (H (S k)); cbn; lia].
+Qed.
+
+Lemma map_is_upd {A} (f : A -> A) (l : list A) r d :
+  (r < length l)%nat -> (forall k, (k < length l)%nat -> k <> r -> f (nth k l d) = nth k l d) ->
+  map f l = upd l r (f (nth r l d)).
+Proof.
+  revert r; induction l as [|x t IH]; intros r Hr H; cbn in Hr; [lia|].
+  destruct r as [|r]; cbn.
+  - f_equal. apply (map_id_on f t d). intros k Hk. apply (H (S k)); cbn; lia.
+  - f_equal; [apply (H O); cbn; lia|]. apply IH; [lia|]. intros k Hk N. apply (H (S k)); cbn; lia.
+Qed.
+
+(* P8: the indexer's data / phases change and its dict is cleared in place; no other indexer uses that dict *)
+Lemma si_expand ob ims ds r im' :
+  (r < length ims)%nat -> i_dc im' = i_dc (nth r ims d_imol) ->
+  (forall k, (k < length ims)%nat -> k <> r -> i_dc (nth k ims d_imol) <> i_dc (nth r ims d_imol)) ->
+  SInvG ob ims ds -> SInvG ob (upd ims r im') (upd ds (i_dc (nth r ims d_imol)) []).
+Proof.
+  intros Hr Hd HN [OW DW CA SH].
+  assert (NU : forall k, nth k (upd ims r im') d_imol = if Nat.eqb r k then im' else nth k ims d_imol).
+  { intros k. rewrite nth_upd. destruct (Nat.eqb r k); cbn [andb]; [|reflexivity].
+    destruct (Nat.ltb_spec r (length ims)); [reflexivity | lia]. }
+  split.
+  - intros i Hi. rewrite upd_length. apply OW; exact Hi.
+  - intros k Hk. rewrite upd_length in Hk. rewrite upd_length, NU.
+    destruct (Nat.eqb_spec r k) as [<-|N]; [rewrite Hd|]; apply DW; assumption.
+  - intros k Hk e He. rewrite upd_length in Hk. rewrite NU in He |- *.
+    destruct (Nat.eqb_spec r k) as [<-|N].
+    + rewrite Hd in He. rewrite nth_upd_same_ref in He by (apply DW; exact Hr). destruct He.
+    + rewrite nth_upd_other_ref in He by (intros E; apply (HN k Hk (not_eq_sym N)); symmetry; exact E).
+      apply CA; assumption.
+  - intros k k' Hk Hk' E. rewrite upd_length in Hk, Hk'. rewrite !NU in *.
+    destruct (Nat.eqb_spec r k) as [<-|N], (Nat.eqb_spec r k') as [<-|N']; auto.
+    + rewrite Hd in E. exfalso. apply (HN k' Hk' (not_eq_sym N')). symmetry. exact E.
+    + rewrite Hd in E. exfalso. apply (HN k Hk (not_eq_sym N)). exact E.
+Qed.
+
+Lemma expand_phases_sinv s ir others :
+  SInv s -> (ir < length (imols s))%nat -> i_multi (imol_of s ir) = true ->
+  (needs_expansion (imol_of s ir) others = true ->
+   forallb (fun r => Nat.eqb r ir || negb (i_multi (imol_of s r) && Nat.eqb (i_data (imol_of s r)) (i_data (imol_of s ir))))
+           (seq O (length (imols s))) = true) ->
+  SInv (expand_phases s ir others).
+Proof.
+  intros H Hr M AD. unfold expand_phases.
+  destruct (needs_expansion (imol_of s ir) others) eqn:NE; cbn [negb]; [|exact H].
+  specialize (AD eq_refl). rewrite forallb_forall in AD.
+  destruct (build_rows s _ _) as [s1 rs] eqn:E. apply build_rows_objs in E as (E1 & E2 & E3).
+  set (im := imol_of s ir) in *. set (a := length (arrs s1)).
+  (* under the side condition the re-pointing touches the receiver only *)
+  assert (OTH : forall k, (k < length (imols s))%nat -> k <> ir ->
+                (i_multi (nth k (imols s) d_imol) && Nat.eqb (i_data (nth k (imols s) d_imol)) (i_data im))%bool = false).
+  { intros k Hk N. specialize (AD k ltac:(apply in_seq; lia)).
+    destruct (Nat.eqb_spec k ir); [contradiction|]. cbn in AD. apply Bool.negb_true_iff in AD. exact AD. }
+  assert (MAP : map (fun x => if (i_multi x && Nat.eqb (i_data x) (i_data im))%bool
+                              then mkimol true a (i_ph x) (i_phases x) (i_dc x) else x) (imols s)
+                = upd (imols s) ir (mkimol true a (i_ph im) (i_phases im) (i_dc im))).
+  { rewrite (map_is_upd _ (imols s) ir d_imol Hr).
+    - fold (imol_of s ir). fold im. rewrite M, Nat.eqb_refl. reflexivity.
+    - intros k Hk N. rewrite (OTH k Hk N). reflexivity. }
+  unfold new_arr. cbn [fst snd]. unfold SInv, imol_of.
+  cbn [objs imols dcs set_dcs set_imols set_arrs wr_imol arrs]. fold a. rewrite E1, E2, E3, MAP.
+  rewrite !nth_upd_same_ref by exact Hr. cbn [i_data i_ph i_dc].
+  (* upd (upd ims ir x) ir y = upd ims ir y *)
+  assert (UU : forall (l : list imol) n x y, upd (upd l n x) n y = upd l n y).
+  { clear. induction l as [|h t IH]; intros [|n] x y; cbn; auto. f_equal. apply IH. }
+  rewrite UU.
+  replace (i_dc im) with (i_dc (nth ir (imols s) d_imol)) by reflexivity.
+  apply si_expand; [exact Hr | reflexivity | | exact H].
+  intros k Hk N E. pose proof (si_share _ _ _ H k ir Hk Hr E) as CK. unfold capkey in CK.
+  fold (imol_of s ir) in CK. fold im in CK. rewrite M in CK.
+  specialize (OTH k Hk N).
+  destruct (i_multi (nth k (imols s) d_imol)); [|discriminate CK].
+  injection CK as CD _. cbn in OTH. rewrite CD, Nat.eqb_refl in OTH. discriminate OTH.
+Qed.
+
+Lemma mixm_sinv s i srcs :
+  SInv s -> (i < length (objs s))%nat -> is_multi s i = true -> adm_mix s i srcs = true -> SInv (mixm s i srcs).
+Proof.
+  intros H Hi M AD. unfold mixm.
+  match goal with |- context [fold_left (fun st pr => wr_row st (@?g st pr) (@?h st pr)) ?l ?s0] =>
+    destruct (fold_wr_row_objs g h l s0) as (A1 & A2 & A3) end.
+  cbv zeta in A1, A2, A3. unfold SInv. rewrite A1, A2, A3.
+  apply expand_phases_sinv; [exact H | apply SInv_owf; assumption | exact M |].
+  intros NE. unfold adm_mix in AD. unfold is_multi in M. rewrite M in AD.
+  unfold phases_of_src in *.
+  replace (flat_map (fun r => if i_multi (imol_of s r) then i_phases (imol_of s r) else [phase_of s (imol_of s r)])
+                    (map (fun j => o_imol (obj_of s j)) srcs))
+    with (flat_map (fun j => if i_multi (imol_of s (o_imol (obj_of s j))) then i_phases (imol_of s (o_imol (obj_of s j)))
+                             else [phase_of s (imol_of s (o_imol (obj_of s j)))]) srcs) in NE
+    by (clear; induction srcs as [|x t IH]; cbn; [reflexivity | rewrite IH; reflexivity]).
+  rewrite NE in AD. cbn in AD. exact AD.
+Qed.
+
+Lemma mix_flows_sinv s i srcs :
+  SInv s -> (i < length (objs s))%nat -> adm_mix s i srcs = true -> SInv (mix_flows s i srcs).
+Proof.
+  intros H Hi AD. unfold mix_flows. destruct (is_multi s i) eqn:M.
+  - apply mixm_sinv; assumption.
+  - eapply same3_sinv; [apply mix_flows_1_same3 | exact H].
+Qed.
+
 Section Vol.
 Variable calc1 : nat -> nat -> option phase -> vec -> Q -> Q -> option Q.
 Variable calcx : nat -> nat -> list (phase * vec) -> Q -> Q -> option Q.
@@ -1399,13 +1541,15 @@ Proof.
   - exact H.
   - eapply same3_sinv; [apply copy_phase_same3 | exact H].
   - (* OMix *)
-    match goal with |- context [mix_flows ?a ?b ?cc] => pose proof (mix_flows_same3 a b cc) as MF; set (s2 := mix_flows a b cc) in * end.
-    assert (H2 : SInv s2) by (eapply same3_sinv; [exact MF | exact H]).
+    cbn [adm] in AD.
+    match goal with |- context [mix_flows ?a ?b ?cc] =>
+      assert (H2 : SInv (mix_flows a b cc)) by (apply mix_flows_sinv; [exact H | apply GV; cbn; auto | exact AD]);
+      set (s2 := mix_flows a b cc) in * end.
     destruct energy; cbn [negb]; [|exact H2].
     pose proof (read_all_st calc1 calcx srcs (mkw s c)) as ES.
     destruct (read_all calc1 calcx (mkw s c) srcs) as [w1 allok]. cbn [fst w_st] in ES.
     destruct allok; cbn [negb]; [rewrite lift_st; exact H2 | cbn [fst]; rewrite ES; exact H].
-  - (* OMix1 *) cbn [fst w_st]. eapply same3_sinv; [apply mix_flows_same3 | exact H].
+  - (* OMix1 *) cbn [fst w_st adm] in *. apply mix_flows_sinv; [exact H | apply GV; cbn; auto | exact AD].
   - (* OView *)
     destruct (i_multi _); [|destruct (Nat.eqb _ _); exact H].
     destruct (negb _); [exact H|]. destruct (find_view _ _); [exact H|]. destruct (index_of _ _); [|exact H].
@@ -1613,4 +1757,25 @@ Proof.
   eapply rd_equiv_trans; [apply (get_property_spec calc1 calcx H1 Hx wn _); [exact In' | exact Hn]|].
   rewrite (spec_read_pstate calc1 calcx wn (length (objs (w_st w'))) w' i); [apply rd_equiv_refl| |exact NK].
   exact NP.
+Qed.
+
+(* ---------- operations that only edit flows / T / P / phase never touch a memo or a key ---------- *)
+Definition state_only (o : op) : bool :=
+  match o with
+  | OSetT _ _ | OSetP _ _ | OSetPhase _ _ | OSetFlow _ _ _ _ | OScale _ _ | OFmol _ _ | OEmpty _
+  | OCopyLike _ _ | OCopyFlow _ _ | OCopyTC _ _ | OCopyPhase _ _ | OMix1 _ _ | OSetHS _ _ _ | ORVol _ | ONop => true
+  | OLink _ _ _ _ tp => negb tp
+  | OMix _ _ energy _ => negb energy
+  | _ => false
+  end.
+
+Lemma state_only_keeps_cache calc1 calcx sk cv w o :
+  state_only o = true -> w_cs (fst (step calc1 calcx sk cv w o)) = w_cs w.
+Proof.
+  intros SO. unfold step. destruct (forallb _ _); [|reflexivity].
+  destruct w as [s c]. destruct o; try discriminate SO; unfold step_valid; cbn [w_st w_cs]; try reflexivity.
+  - destruct (read_vol cv s i) as [s1 v]. reflexivity.
+  - cbn in SO. apply Bool.negb_true_iff in SO. subst tp.
+    destruct (link_with s i j fl ph false) as [s1 [e|]]; reflexivity.
+  - cbn in SO. apply Bool.negb_true_iff in SO. subst energy. reflexivity.
 Qed.
